@@ -29,6 +29,10 @@ struct Rec {
     overlap: Vec<String>,
     outcome: Vec<(String, String)>,
     done: Vec<String>,
+    /// scenario (e): streams accepted through the adapter: (bidi, identifier when fresh, at the end, bytes read)
+    accepted: Vec<(bool, u64, u64, Vec<u8>)>,
+    /// scenario (e): what the raw peer wrote on the streams it opened, by Quinn's identifier
+    peer_sent: Vec<(u64, Vec<u8>)>,
 }
 
 fn serr(e: &StreamErrorIncoming) -> String {
@@ -77,17 +81,19 @@ fn one_run(ctx: &RunCtx) -> RunOut {
 }
 
 fn one_run_inner(ctx: &RunCtx) -> RunOut {
-    let mode = match draw(8) {
+    let mode = match draw(10) {
         0 | 1 | 2 => 0u8, // bytes + identifiers
         3 | 4 => 1,       // injected conditions
         5 => 2,           // full h3 stack
         6 => 3,           // datagrams through the adapter
+        7 => 4,           // streams the peer opens, streams opened through the OpenStreams handle, connection-level calls
+        8 => 5,           // stop_sending / reset issued through the adapter
         _ => 0,
     };
     // RFC 9114 6.2 lets h3 count on 1024 bytes of credit on its unidirectional streams: the full stack (and
     // nothing else) needs windows of at least that size
     let sw = if mode == 2 { *pick(&[65536u32, 1024, 1500, 1 << 20]) } else { *pick(&[65536u32, 1, 16, 48, 200, 1000, 1 << 20]) };
-    let p = Params { stream_window: sw, conn_window: if mode == 1 { 1 << 24 } else { sw.max(*pick(&[4000u32, 100, 1 << 20])) }, send_window: if mode == 1 { 1u64 << 20 } else { *pick(&[1u64 << 20, 64, 1000]) }, idle_ms: None };
+    let p = Params { stream_window: sw, conn_window: if mode == 1 || mode >= 4 { 1 << 24 } else { sw.max(*pick(&[4000u32, 100, 1 << 20])) }, send_window: if mode == 1 || mode >= 4 { 1u64 << 20 } else { *pick(&[1u64 << 20, 64, 1000]) }, idle_ms: None };
     // (mode 1 keeps Quinn's send window large: with a send window exhausted at the same moment as the stream's
     //  flow-control credit, quinn-proto 0.11.17 never wakes a writer whose stream was stopped - Streams::poll()
     //  drops the Writable event because max_data == offset, and write() looks at the connection-level limit
@@ -98,7 +104,9 @@ fn one_run_inner(ctx: &RunCtx) -> RunOut {
     let rec: Rc<RefCell<Rec>> = Default::default();
     let fault_kind = draw(4); // mode 1: 0 stop, 1 reset, 2 close, 3 idle timeout via partition
     let code: u64 = *pick(&[0x10cu64, 0, 0x100, 0x3fff_ffff, (1 << 62) - 1, 77]);
-    let idle = if mode == 1 && fault_kind == 3 { Some(10_000u32) } else { None };
+    let idle = if (mode == 1 || mode == 4) && fault_kind == 3 { Some(10_000u32) } else { None };
+    // mode 4: how many unidirectional streams the raw peer lets the adapter have open at a time
+    let peer_uni_limit: u32 = if mode == 4 { *pick(&[100u32, 1, 2]) } else { 100 };
     let tune = |tc: &mut quinn::TransportConfig, p: &Params| {
         tc.stream_receive_window(quinn::VarInt::from_u32(p.stream_window));
         tc.receive_window(quinn::VarInt::from_u32(p.conn_window));
@@ -110,7 +118,13 @@ fn one_run_inner(ctx: &RunCtx) -> RunOut {
         }
         let _ = p.idle_ms;
     };
-    let pair = e3::endpoints(|tc| tune(tc, &p), |tc| tune(tc, &p));
+    let pair = e3::endpoints(
+        |tc| tune(tc, &p),
+        |tc| {
+            tune(tc, &p);
+            tc.max_concurrent_uni_streams(quinn::VarInt::from_u32(peer_uni_limit));
+        },
+    );
     let nframes = 1 + draw_usize(4);
     let sizes: Vec<usize> = (0..nframes)
         .map(|_| {
@@ -480,6 +494,8 @@ fn one_run_inner(ctx: &RunCtx) -> RunOut {
             };
             return finish_full_stack(ctx, stop, &rec, &req_body, &resp_body, lossy);
         }
+        4 => return accepted_streams_and_connection_calls(ctx, server, client, rec, sw as usize, peer_uni_limit, fault_kind, code, lossy),
+        5 => return adapter_issued_stop_and_reset(ctx, server, client, rec, sw as usize, code, lossy),
         _ => {
             // ---- datagrams through the adapter
             use h3_datagram::datagram::Datagram;
@@ -698,6 +714,608 @@ fn one_run_inner(ctx: &RunCtx) -> RunOut {
     out
 }
 
+fn qid(id: quinn::StreamId) -> u64 {
+    quinn::VarInt::from(id).into_inner()
+}
+
+/// payload of a stream in scenarios (e): the stream's identifier as its opener's Quinn reports it, a tag, a pattern
+fn tagged(id: u64, tag: u8, len: usize) -> Vec<u8> {
+    let mut v = id.to_be_bytes().to_vec();
+    v.push(tag);
+    v.extend(pattern(len, tag as usize));
+    v
+}
+
+/// Scenario (e): the raw peer opens unidirectional and bidirectional streams, the adapter accepts them through
+/// poll_accept_recv / poll_accept_bidi (both polled from one task, as h3's driver does), answers the bidirectional
+/// ones, and opens unidirectional streams of its own through the OpenStreams handle obtained from opener() while the
+/// peer grants few of them at a time. Identifiers the adapter reports are compared with Quinn's own (the opener
+/// writes its stream's id into the payload). At the end the peer closes the connection, the path goes silent until
+/// the idle timeout, or nothing happens; every connection-level call must report that condition's class and code.
+#[allow(clippy::too_many_arguments)]
+fn accepted_streams_and_connection_calls(ctx: &RunCtx, server: quinn::Endpoint, client: quinn::Endpoint, rec: Rc<RefCell<Rec>>, sw: usize, peer_uni_limit: u32, fault_kind: u32, code: u64, lossy: bool) -> RunOut {
+    let cap = (sw * 200).clamp(64, 40_000);
+    let n_uni = draw_usize(4);
+    let n_bi = draw_usize(3);
+    let n_open = draw_usize(4);
+    let len = |_: usize| (*pick(&[100usize, 0, 1, 5000, 40_000])).min(cap);
+    let uni_lens: Vec<usize> = (0..n_uni).map(len).collect();
+    let bi_lens: Vec<(usize, usize)> = (0..n_bi).map(|i| (len(i), len(i))).collect();
+    let open_lens: Vec<usize> = (0..n_open).map(len).collect();
+    // 0 nothing, 1 peer closes with `code`, 2 idle timeout (partition)
+    let ending = match fault_kind {
+        2 => 1u8,
+        3 => 2,
+        _ => 0,
+    };
+    // ---- adapter
+    {
+        let rec = rec.clone();
+        let bi_lens = bi_lens.clone();
+        let open_lens = open_lens.clone();
+        e3::spawn("adapter", async move {
+            let Some(inc) = server.accept().await else { return rec.borrow_mut().errors.push("accept: endpoint closed".into()) };
+            let conn = match inc.await {
+                Ok(c) => c,
+                Err(e) => return rec.borrow_mut().errors.push(format!("server handshake: {e}")),
+            };
+            let mut a = h3_quinn::Connection::new(conn);
+            let mut opener: h3_quinn::OpenStreams = <AConn as quic::Connection<Bytes>>::opener(&a);
+            // streams opened through the OpenStreams handle, in a task of their own
+            {
+                let rec = rec.clone();
+                let mut opener2 = opener.clone();
+                e3::spawn("adapter-open", async move {
+                    for (j, l) in open_lens.iter().enumerate() {
+                        let r = poll_fn(|cx| <h3_quinn::OpenStreams as quic::OpenStreams<Bytes>>::poll_open_send(&mut opener2, cx)).await;
+                        let mut s = match r {
+                            Ok(s) => s,
+                            Err(e) => return rec.borrow_mut().outcome.push(("open_send.planned".into(), serr(&e))),
+                        };
+                        let id = s.send_id().into_inner();
+                        rec.borrow_mut().ids.push((format!("opened.{j}"), id));
+                        let r = async {
+                            s.send_data(Frame::Data(Bytes::from(tagged(id, 100 + j as u8, *l))))?;
+                            poll_fn(|cx| s.poll_ready(cx)).await?;
+                            poll_fn(|cx| s.poll_finish(cx)).await
+                        }
+                        .await;
+                        if let Err(e) = r {
+                            return rec.borrow_mut().outcome.push(("opened.write".into(), serr(&e)));
+                        }
+                        if s.send_id().into_inner() != id {
+                            rec.borrow_mut().errors.push(format!("IDCHANGE opened stream {id} later reported {}", s.send_id().into_inner()));
+                        }
+                    }
+                    rec.borrow_mut().done.push("adapter-open".into());
+                });
+            }
+            // accept loop: both kinds polled from one task
+            enum Ev {
+                Uni(Result<h3_quinn::RecvStream, ConnectionErrorIncoming>),
+                Bi(Result<h3_quinn::BidiStream<Bytes>, ConnectionErrorIncoming>),
+            }
+            let (mut uni_done, mut bi_done) = (false, false);
+            let mut k = 0usize;
+            while !(uni_done && bi_done) {
+                let ev = poll_fn(|cx| {
+                    if !uni_done {
+                        if let std::task::Poll::Ready(r) = <AConn as quic::Connection<Bytes>>::poll_accept_recv(&mut a, cx) {
+                            return std::task::Poll::Ready(Ev::Uni(r));
+                        }
+                    }
+                    if !bi_done {
+                        if let std::task::Poll::Ready(r) = <AConn as quic::Connection<Bytes>>::poll_accept_bidi(&mut a, cx) {
+                            return std::task::Poll::Ready(Ev::Bi(r));
+                        }
+                    }
+                    std::task::Poll::Pending
+                })
+                .await;
+                k += 1;
+                match ev {
+                    Ev::Uni(Ok(mut rx)) => {
+                        let rec = rec.clone();
+                        e3::spawn(&format!("adapter-uni-{k}"), async move {
+                            let first = rx.recv_id().into_inner();
+                            let mut got = vec![];
+                            loop {
+                                match poll_fn(|cx| rx.poll_data(cx)).await {
+                                    Ok(Some(b)) => got.extend_from_slice(&b),
+                                    Ok(None) => break,
+                                    Err(e) => return rec.borrow_mut().outcome.push(("accepted.read".into(), serr(&e))),
+                                }
+                            }
+                            let last = rx.recv_id().into_inner();
+                            rec.borrow_mut().accepted.push((false, first, last, got));
+                        });
+                    }
+                    Ev::Bi(Ok(bi)) => {
+                        let rec = rec.clone();
+                        let bi_lens = bi_lens.clone();
+                        e3::spawn(&format!("adapter-bi-{k}"), async move {
+                            let first = bi.recv_id().into_inner();
+                            if bi.send_id().into_inner() != first {
+                                rec.borrow_mut().errors.push(format!("IDCHANGE accepted bidi stream: recv_id {first}, send_id {}", bi.send_id().into_inner()));
+                            }
+                            let (mut tx, mut rx) = bi.split();
+                            let mut got = vec![];
+                            loop {
+                                match poll_fn(|cx| rx.poll_data(cx)).await {
+                                    Ok(Some(b)) => got.extend_from_slice(&b),
+                                    Ok(None) => break,
+                                    Err(e) => return rec.borrow_mut().outcome.push(("accepted.read".into(), serr(&e))),
+                                }
+                            }
+                            // the answer: the tag the peer used tells which length it expects
+                            let tag = got.get(8).copied().unwrap_or(0) as usize;
+                            let l = bi_lens.get(tag.wrapping_sub(50)).map(|x| x.1).unwrap_or(0);
+                            let id = tx.send_id().into_inner();
+                            let r = async {
+                                tx.send_data(Frame::Data(Bytes::from(tagged(id, tag as u8, l))))?;
+                                poll_fn(|cx| tx.poll_ready(cx)).await?;
+                                poll_fn(|cx| tx.poll_finish(cx)).await
+                            }
+                            .await;
+                            if let Err(e) = r {
+                                return rec.borrow_mut().outcome.push(("accepted.answer".into(), serr(&e)));
+                            }
+                            let last = rx.recv_id().into_inner();
+                            rec.borrow_mut().accepted.push((true, first, last, got));
+                        });
+                    }
+                    Ev::Uni(Err(e)) => {
+                        rec.borrow_mut().outcome.push(("accept_recv".into(), format!("Connection({})", cerr(&e))));
+                        uni_done = true;
+                    }
+                    Ev::Bi(Err(e)) => {
+                        rec.borrow_mut().outcome.push(("accept_bidi".into(), format!("Connection({})", cerr(&e))));
+                        bi_done = true;
+                    }
+                }
+            }
+            // the condition is known now: every later connection-level call reports it too
+            let again = poll_fn(|cx| std::task::Poll::Ready(<AConn as quic::Connection<Bytes>>::poll_accept_recv(&mut a, cx))).await;
+            rec.borrow_mut().outcome.push(("accept_recv.again".into(), match again {
+                std::task::Poll::Ready(Err(e)) => format!("Connection({})", cerr(&e)),
+                std::task::Poll::Ready(Ok(_)) => "stream".into(),
+                std::task::Poll::Pending => "pending".into(),
+            }));
+            let r = poll_fn(|cx| <h3_quinn::OpenStreams as quic::OpenStreams<Bytes>>::poll_open_send(&mut opener, cx)).await;
+            rec.borrow_mut().outcome.push(("open_send.after".into(), r.err().map(|e| serr(&e)).unwrap_or("ok".into())));
+            let r = open_bidi(&mut a).await;
+            rec.borrow_mut().outcome.push(("open_bidi.after".into(), r.err().map(|e| serr(&e)).unwrap_or("ok".into())));
+            rec.borrow_mut().done.push("adapter-calls".into());
+            std::future::pending::<()>().await;
+            drop(a);
+        });
+    }
+    // ---- raw peer
+    {
+        let rec = rec.clone();
+        let uni_lens = uni_lens.clone();
+        let bi_lens = bi_lens.clone();
+        let open_lens = open_lens.clone();
+        e3::spawn("peer", async move {
+            let conn = match client.connect(e3::SERVER_ADDR.parse().unwrap(), "localhost").unwrap().await {
+                Ok(c) => c,
+                Err(e) => return rec.borrow_mut().errors.push(format!("client handshake: {e}")),
+            };
+            // (a Quinn stream is announced to the other side by its first frame: every stream carries >= 9 bytes)
+            let total = uni_lens.len() + bi_lens.len();
+            let finished: Rc<RefCell<usize>> = Default::default();
+            // drawn order of opening
+            let mut order: Vec<(bool, usize)> = (0..uni_lens.len()).map(|i| (false, i)).chain((0..bi_lens.len()).map(|i| (true, i))).collect();
+            for i in (1..order.len()).rev() {
+                order.swap(i, draw_usize(i + 1));
+            }
+            for (bi, i) in order {
+                let conn = conn.clone();
+                let rec = rec.clone();
+                let finished = finished.clone();
+                if !bi {
+                    let l = uni_lens[i];
+                    e3::spawn(&format!("peer-uni-{i}"), async move {
+                        let mut s = match conn.open_uni().await {
+                            Ok(s) => s,
+                            Err(e) => return rec.borrow_mut().errors.push(format!("peer open_uni: {e}")),
+                        };
+                        let id = qid(s.id());
+                        let msg = tagged(id, 10 + i as u8, l);
+                        if let Err(e) = s.write_all(&msg).await {
+                            return rec.borrow_mut().errors.push(format!("peer write: {e}"));
+                        }
+                        let _ = s.finish();
+                        rec.borrow_mut().peer_sent.push((id, msg));
+                        let _ = s.stopped().await;
+                        *finished.borrow_mut() += 1;
+                    });
+                } else {
+                    let (l, al) = bi_lens[i];
+                    e3::spawn(&format!("peer-bi-{i}"), async move {
+                        let (mut s, mut r) = match conn.open_bi().await {
+                            Ok(x) => x,
+                            Err(e) => return rec.borrow_mut().errors.push(format!("peer open_bi: {e}")),
+                        };
+                        let id = qid(s.id());
+                        let msg = tagged(id, 50 + i as u8, l);
+                        if let Err(e) = s.write_all(&msg).await {
+                            return rec.borrow_mut().errors.push(format!("peer write: {e}"));
+                        }
+                        let _ = s.finish();
+                        rec.borrow_mut().peer_sent.push((id, msg));
+                        match r.read_to_end(1_000_000).await {
+                            Ok(v) => {
+                                let want = frames::frame(frames::DATA, &tagged(id, 50 + i as u8, al));
+                                if v != want {
+                                    rec.borrow_mut().errors.push(format!("ANSWER on bidi stream {id}: peer read {} bytes [{}], expected {} bytes (identifier {id} first)", v.len(), v.iter().take(14).map(|x| format!("{x:02x}")).collect::<String>(), want.len()));
+                                }
+                            }
+                            Err(e) => return rec.borrow_mut().errors.push(format!("peer read answer: {e}")),
+                        }
+                        *finished.borrow_mut() += 1;
+                    });
+                }
+            }
+            // streams the adapter opens
+            for _ in 0..open_lens.len() {
+                let mut r = match conn.accept_uni().await {
+                    Ok(r) => r,
+                    Err(e) => return rec.borrow_mut().errors.push(format!("peer accept_uni: {e}")),
+                };
+                let id = qid(r.id());
+                match r.read_to_end(1_000_000).await {
+                    Ok(v) => {
+                        let tag = v.get(2 + 8).copied().unwrap_or(0);
+                        // the frame header is 2-4 bytes; find the identifier by decoding the header with the reference
+                        let ok = (0..open_lens.len()).any(|j| v == frames::frame(frames::DATA, &tagged(id, 100 + j as u8, open_lens[j])));
+                        if !ok {
+                            rec.borrow_mut().errors.push(format!("OPENED uni stream {id} (Quinn's identifier): peer read {} bytes [{}] which is no DATA frame carrying that identifier and a planned payload (tag byte {tag})", v.len(), v.iter().take(16).map(|x| format!("{x:02x}")).collect::<String>()));
+                        }
+                    }
+                    Err(e) => return rec.borrow_mut().errors.push(format!("peer read opened stream: {e}")),
+                }
+            }
+            // wait until everything the peer started is through
+            while *finished.borrow() < total {
+                e3::sleep(Duration::from_millis(5)).await;
+            }
+            rec.borrow_mut().done.push("peer-transfers".into());
+            match ending {
+                1 => {
+                    // give the adapter's tasks a moment to record what they read, then close
+                    e3::sleep(Duration::from_millis(50)).await;
+                    conn.close(quinn::VarInt::from_u64(code).unwrap(), b"bye");
+                    obs::count("fault.peer_close");
+                }
+                2 => {
+                    e3::sleep(Duration::from_millis(50)).await;
+                    e3::with(|c| c.faults.partition = true);
+                    obs::count("fault.partition_until_idle_timeout");
+                }
+                _ => {}
+            }
+            std::future::pending::<()>().await;
+            drop(conn);
+        });
+    }
+    let stop = {
+        let rec = rec.clone();
+        let want_accepted = n_uni + n_bi;
+        e3::run_until(
+            move || {
+                let r = rec.borrow();
+                if !r.errors.is_empty() {
+                    return true;
+                }
+                let transfers = r.done.iter().any(|d| d == "peer-transfers") && r.accepted.len() >= want_accepted && (n_open == 0 || r.done.iter().any(|d| d == "adapter-open"));
+                if ending == 0 {
+                    transfers || !r.outcome.is_empty()
+                } else {
+                    r.done.iter().any(|d| d == "adapter-calls")
+                }
+            },
+            600_000,
+            Duration::from_secs(600),
+        )
+    };
+    if let Some(v) = panic_violation() {
+        return v;
+    }
+    let r = rec.borrow().clone();
+    let what = "accepted_and_opened_streams";
+    obs::note(|| format!("mode 4 window {sw} uni {uni_lens:?} bi {bi_lens:?} opened by the adapter {open_lens:?} (peer grants {peer_uni_limit} at a time) ending {ending} code {code} stop {stop:?} outcome {:?} errors {:?} ids {:?} done {:?}", r.outcome, r.errors, r.ids, r.done));
+    let timed_out = r.errors.iter().any(|e| e.contains("Timeout") || e.contains("TimedOut") || e.contains("timed out")) || r.outcome.iter().any(|(_, o)| o.contains("Timeout"));
+    if lossy && ending != 2 && timed_out {
+        obs::count("probe.run_ended_by_idle_timeout_under_packet_loss");
+        return RunOut::ok(false);
+    }
+    if let Some(e) = r.errors.iter().find(|e| e.starts_with("IDCHANGE")) {
+        return fail("C17.identifier_changed", e.clone(), what);
+    }
+    if let Some(e) = r.errors.iter().find(|e| e.starts_with("ANSWER") || e.starts_with("OPENED")) {
+        return fail("C17.bytes_differ", e.clone(), what);
+    }
+    if let Some(e) = r.errors.first() {
+        return fail("C17.transfer_failed", format!("{e}; all {:?}; outcome {:?}", r.errors, r.outcome), what);
+    }
+    if stop != Stop::Done {
+        return fail("C17.did_not_finish", format!("the scenario did not finish ({stop:?}); accepted {} of {}, done {:?}, outcome {:?}, pending {:?}", r.accepted.len(), n_uni + n_bi, r.done, r.outcome, e3::pending_tasks()), what);
+    }
+    // every stream the peer opened was surfaced exactly once, under Quinn's identifier, with exactly its bytes
+    for (bi, first, last, got) in &r.accepted {
+        if first != last {
+            return fail("C17.identifier_changed", format!("accepted stream reported identifier {first} when fresh and {last} at its end"), what);
+        }
+        let embedded = got.get(..8).map(|b| u64::from_be_bytes(b.try_into().unwrap()));
+        if embedded != Some(*first) {
+            return fail("C17.accepted_stream_identifier_wrong", format!("accepted {} stream: the adapter reports identifier {first}, the peer's Quinn opened it as {embedded:?}", if *bi { "bidirectional" } else { "unidirectional" }), what);
+        }
+        match r.peer_sent.iter().find(|(id, _)| id == first) {
+            Some((_, msg)) if msg == got => {}
+            other => return fail("C17.read_bytes_differ", format!("accepted stream {first}: the adapter read {} bytes, the peer wrote {:?}", got.len(), other.map(|(_, m)| m.len())), what),
+        }
+    }
+    let mut seen: Vec<u64> = r.accepted.iter().map(|a| a.1).collect();
+    seen.sort();
+    if seen.windows(2).any(|w| w[0] == w[1]) {
+        return fail("C17.accepted_stream_surfaced_twice", format!("accepted identifiers {seen:?}"), what);
+    }
+    if ending == 0 || r.done.iter().any(|d| d == "peer-transfers") {
+        if r.accepted.len() != n_uni + n_bi && r.outcome.iter().all(|(w, _)| w != "accepted.read" && w != "accepted.answer") {
+            return fail("C17.accepted_stream_lost", format!("the peer opened {} streams and saw all of them through; the adapter surfaced {}", n_uni + n_bi, r.accepted.len()), what);
+        }
+    }
+    // identifiers of the streams the adapter opened: server-initiated unidirectional, 3, 7, 11, ... in order
+    let opened: Vec<u64> = r.ids.iter().filter(|(w, _)| w.starts_with("opened.")).map(|(_, i)| *i).collect();
+    if opened.iter().enumerate().any(|(j, id)| *id != 3 + 4 * j as u64) {
+        return fail("C17.identifier_changed", format!("streams opened through the OpenStreams handle reported identifiers {opened:?} (server-initiated unidirectional streams are 3, 7, 11, ...)"), what);
+    }
+    if ending == 0 {
+        if let Some(o) = r.outcome.first() {
+            return fail("C17.transfer_failed", format!("adapter call {} failed with {} although nothing was injected", o.0, o.1), what);
+        }
+    } else {
+        let want = if ending == 1 { format!("Connection(ApplicationClose({code}))") } else { "Connection(Timeout)".to_string() };
+        for (w, o) in &r.outcome {
+            let conn_call = matches!(w.as_str(), "accept_recv" | "accept_bidi" | "accept_recv.again" | "open_send.after" | "open_bidi.after");
+            // (a CONNECTION_CLOSE that is lost is not repeated for ever: under packet loss the idle timeout is a legitimate outcome)
+            let ok = *o == want || (lossy && ending == 1 && (o == "Connection(Timeout)" || o.contains("reset by peer")));
+            if conn_call && !ok {
+                return fail("C17.wrong_error_class", format!("{}: the connection-level call {w} reported {o}, expected {want}; all {:?}", if ending == 1 { format!("peer closed the connection with {code}") } else { "the path went silent until the idle timeout".into() }, r.outcome), if ending == 1 { "close" } else { "timeout" }).map_fact("call", w.split('.').next().unwrap_or(""));
+            }
+        }
+        for c in ["accept_recv", "accept_bidi", "accept_recv.again", "open_send.after", "open_bidi.after"] {
+            if !r.outcome.iter().any(|(w, _)| w == c) {
+                return fail("C17.did_not_finish", format!("no outcome recorded for {c}; {:?}", r.outcome), what);
+            }
+        }
+    }
+    if peer_uni_limit < n_open as u32 {
+        obs::count("probe.open_through_handle_waited_for_stream_credit");
+    }
+    obs::count_n("probe.streams_accepted_through_the_adapter", r.accepted.len() as u64);
+    obs::count_n("sim.virtual_ms", e3::now().as_millis() as u64);
+    obs::count_n("sim.packets", e3::with(|c| c.packets_sent));
+    let mut out = RunOut::ok(n_uni + n_bi + n_open > 0 || ending != 0);
+    if ctx.want_sample {
+        out.sample = Some(json!({"mode": what, "peer_opened_uni": uni_lens, "peer_opened_bidi": bi_lens, "adapter_opened_uni": open_lens, "peer_grants_uni_streams_at_a_time": peer_uni_limit, "ending": (["nothing", "peer close", "idle timeout"])[ending as usize], "code": code, "identifiers": r.ids, "accepted_identifiers": seen, "adapter_outcomes": r.outcome, "virtual_seconds": e3::now().as_secs_f64()}));
+    }
+    out
+}
+
+/// Scenario (f): the application on the adapter's side stops the peer's sending (stop_sending(code)) and resets its
+/// own (reset(code)); the raw peer must see exactly those codes. The stop is issued fresh, after some reads, or while
+/// a read is parked inside the adapter (poll_data returned Pending) - then the reader goes on until that read has
+/// completed, which is when h3-quinn can act on it.
+fn adapter_issued_stop_and_reset(ctx: &RunCtx, server: quinn::Endpoint, client: quinn::Endpoint, rec: Rc<RefCell<Rec>>, sw: usize, code: u64, lossy: bool) -> RunOut {
+    let stop_variant = draw(4); // 0 at once, 1 after some bytes, 2 while a read is parked, then read on once, 3 parked, then dropped (observed only)
+    let reset_variant = draw(4); // 0 no reset (finish), 1 before any write, 2 after a complete write, 3 with a write in flight
+    let reset_code: u64 = *pick(&[0x10cu64, 0, 0x3fff_ffff, (1 << 62) - 1, 5]);
+    let after = draw_usize(3000);
+    let whole = draw(2) == 1; // use the BidiStream itself instead of its halves
+    {
+        let rec = rec.clone();
+        e3::spawn("adapter", async move {
+            let Some(inc) = server.accept().await else { return rec.borrow_mut().errors.push("accept: endpoint closed".into()) };
+            let conn = match inc.await {
+                Ok(c) => c,
+                Err(e) => return rec.borrow_mut().errors.push(format!("server handshake: {e}")),
+            };
+            let mut a = h3_quinn::Connection::new(conn);
+            let mut bi = match open_bidi(&mut a).await {
+                Ok(b) => b,
+                Err(e) => return rec.borrow_mut().errors.push(format!("open_bidi: {}", serr(&e))),
+            };
+            // announce the stream to the peer
+            let hello = async {
+                bi.send_data(Frame::Data(Bytes::from_static(b"hello")))?;
+                poll_fn(|cx| bi.poll_ready(cx)).await
+            }
+            .await;
+            if reset_variant != 1 {
+                if let Err(e) = hello {
+                    return rec.borrow_mut().errors.push(format!("first write: {}", serr(&e)));
+                }
+            }
+            macro_rules! both {
+                ($tx:expr, $rx:expr) => {{
+                    // ---- receive side
+                    let mut got = 0usize;
+                    if stop_variant >= 1 {
+                        while got < after {
+                            match poll_fn(|cx| $rx.poll_data(cx)).await {
+                                Ok(Some(b)) => got += b.len(),
+                                Ok(None) => break,
+                                Err(e) => return rec.borrow_mut().errors.push(format!("read before the stop: {}", serr(&e))),
+                            }
+                        }
+                    }
+                    if stop_variant >= 2 {
+                        // read until the adapter has nothing: the read is parked inside it now
+                        let mut parked = false;
+                        for _ in 0..10_000 {
+                            match poll_fn(|cx| std::task::Poll::Ready($rx.poll_data(cx))).await {
+                                std::task::Poll::Pending => {
+                                    parked = true;
+                                    break;
+                                }
+                                std::task::Poll::Ready(Ok(Some(b))) => got += b.len(),
+                                std::task::Poll::Ready(Ok(None)) => break,
+                                std::task::Poll::Ready(Err(e)) => return rec.borrow_mut().errors.push(format!("read before the stop: {}", serr(&e))),
+                            }
+                        }
+                        if parked {
+                            obs::count("probe.stop_sending_issued_while_a_read_is_parked");
+                            rec.borrow_mut().done.push("parked".into());
+                        }
+                    }
+                    let _ = got;
+                    $rx.stop_sending(code);
+                    rec.borrow_mut().done.push("stop-issued".into());
+                    if stop_variant == 2 {
+                        // the reader goes on until the parked read has completed (data, end or an error - all fine)
+                        let _ = poll_fn(|cx| $rx.poll_data(cx)).await;
+                    }
+                    // ---- send side
+                    match reset_variant {
+                        0 => {
+                            let _ = poll_fn(|cx| $tx.poll_finish(cx)).await;
+                        }
+                        1 | 2 => $tx.reset(reset_code),
+                        _ => {
+                            let big = Bytes::from(pattern((sw * 4).clamp(2000, 300_000), 5));
+                            if $tx.send_data(Frame::Data(big)).is_ok() {
+                                let p = poll_fn(|cx| std::task::Poll::Ready($tx.poll_ready(cx))).await;
+                                if p.is_pending() {
+                                    obs::count("probe.reset_issued_with_a_write_in_flight");
+                                }
+                            }
+                            $tx.reset(reset_code);
+                        }
+                    }
+                    rec.borrow_mut().done.push("adapter".into());
+                }};
+            }
+            if whole {
+                both!(bi, bi);
+                if stop_variant == 3 {
+                    drop(bi);
+                    std::future::pending::<()>().await;
+                } else {
+                    std::future::pending::<()>().await;
+                    drop(bi);
+                }
+            } else {
+                let (mut tx, mut rx) = bi.split();
+                both!(tx, rx);
+                if stop_variant == 3 {
+                    drop(rx);
+                    std::future::pending::<()>().await;
+                    drop(tx);
+                } else {
+                    std::future::pending::<()>().await;
+                    drop((tx, rx));
+                }
+            }
+            drop(a);
+        });
+    }
+    {
+        let rec = rec.clone();
+        e3::spawn("peer", async move {
+            let conn = match client.connect(e3::SERVER_ADDR.parse().unwrap(), "localhost").unwrap().await {
+                Ok(c) => c,
+                Err(e) => return rec.borrow_mut().errors.push(format!("client handshake: {e}")),
+            };
+            let (mut s, mut r) = match conn.accept_bi().await {
+                Ok(x) => x,
+                Err(e) => return rec.borrow_mut().errors.push(format!("peer accept_bi: {e} ({e:?})")),
+            };
+            let rec_w = rec.clone();
+            let writer = async move {
+                // keeps writing until it is told to stop
+                let chunk = pattern(700, 9);
+                for _ in 0..3000 {
+                    match s.write_all(&chunk).await {
+                        Ok(()) => {}
+                        Err(quinn::WriteError::Stopped(c)) => return rec_w.borrow_mut().outcome.push(("peer.write".into(), format!("Stopped({})", c.into_inner()))),
+                        Err(e) => return rec_w.borrow_mut().outcome.push(("peer.write".into(), format!("{e}"))),
+                    }
+                    e3::sleep(Duration::from_millis(1)).await;
+                }
+                match s.stopped().await {
+                    Ok(Some(c)) => rec_w.borrow_mut().outcome.push(("peer.write".into(), format!("Stopped({})", c.into_inner()))),
+                    other => rec_w.borrow_mut().outcome.push(("peer.write".into(), format!("{other:?}"))),
+                }
+            };
+            let rec_r = rec.clone();
+            let reader = async move {
+                loop {
+                    match r.read_chunk(usize::MAX, true).await {
+                        Ok(Some(_)) => {}
+                        Ok(None) => return rec_r.borrow_mut().outcome.push(("peer.read".into(), "end".into())),
+                        Err(quinn::ReadError::Reset(c)) => return rec_r.borrow_mut().outcome.push(("peer.read".into(), format!("Reset({})", c.into_inner()))),
+                        Err(e) => return rec_r.borrow_mut().outcome.push(("peer.read".into(), format!("{e}"))),
+                    }
+                }
+            };
+            futures_util::future::join(reader, writer).await;
+            rec.borrow_mut().done.push("peer".into());
+            std::future::pending::<()>().await;
+            drop(conn);
+        });
+    }
+    let stop = {
+        let rec = rec.clone();
+        e3::run_until(move || !rec.borrow().errors.is_empty() || rec.borrow().done.iter().any(|d| d == "peer"), 600_000, Duration::from_secs(600))
+    };
+    if let Some(v) = panic_violation() {
+        return v;
+    }
+    let r = rec.borrow().clone();
+    let what = "stop_and_reset_issued_through_the_adapter";
+    obs::note(|| format!("mode 5 window {sw} stop variant {stop_variant} code {code} after {after}; reset variant {reset_variant} code {reset_code}; whole {whole}; stop {stop:?}; outcome {:?} errors {:?} done {:?}", r.outcome, r.errors, r.done));
+    let timed_out = r.errors.iter().any(|e| e.contains("Timeout") || e.contains("TimedOut") || e.contains("timed out")) || r.outcome.iter().any(|(_, o)| o.contains("timed out"));
+    if lossy && timed_out {
+        obs::count("probe.run_ended_by_idle_timeout_under_packet_loss");
+        return RunOut::ok(false);
+    }
+    if let Some(e) = r.errors.first() {
+        return fail("C17.transfer_failed", format!("{e}; all {:?}; outcome {:?}", r.errors, r.outcome), what);
+    }
+    let get = |k: &str| r.outcome.iter().find(|(w, _)| w == k).map(|(_, v)| v.clone());
+    if stop_variant == 3 {
+        // observed, not judged (DESIGN 7.4 O8): a stop parked behind a pending read is lost when the handle is dropped
+        match get("peer.write").as_deref() {
+            Some(o) if *o == format!("Stopped({code})") => obs::count("probe.parked_stop_then_drop.peer_saw_the_code"),
+            Some("Stopped(0)") => obs::count("probe.parked_stop_then_drop.peer_saw_code_0"),
+            _ => obs::count("probe.parked_stop_then_drop.other"),
+        }
+    } else {
+        if stop != Stop::Done {
+            return fail("C17.adapter_stop_not_delivered", format!("stop_sending({code}) was issued through the adapter ({}), the peer's writes never failed ({stop:?}); outcome {:?}; done {:?}", (["at once", "after some reads", "while a read was parked; the reader went on until that read completed"])[stop_variant as usize], r.outcome, r.done), what).map_fact("when", (["fresh", "after_reads", "read_parked"])[stop_variant as usize]);
+        }
+        match get("peer.write") {
+            Some(o) if o == format!("Stopped({code})") => {}
+            other => return fail("C17.adapter_stop_code_wrong", format!("stop_sending({code}) was issued through the adapter, the peer's write reported {other:?}"), what).map_fact("when", (["fresh", "after_reads", "read_parked"])[stop_variant as usize]),
+        }
+    }
+    match (reset_variant, get("peer.read")) {
+        (0, Some(o)) if o == "end" => {}
+        (1..=3, Some(o)) if o == format!("Reset({reset_code})") => {}
+        (_, None) if stop != Stop::Done => return fail("C17.did_not_finish", format!("the peer's read never ended ({stop:?}); outcome {:?}", r.outcome), what),
+        (v, other) => return fail("C17.adapter_reset_code_wrong", format!("the adapter's send side was {} the peer's read reported {other:?}", if v == 0 { "finished:".to_string() } else { format!("reset with {reset_code}:") }), what),
+    }
+    obs::count_n("sim.virtual_ms", e3::now().as_millis() as u64);
+    obs::count_n("sim.packets", e3::with(|c| c.packets_sent));
+    let mut out = RunOut::ok(true);
+    if ctx.want_sample {
+        out.sample = Some(json!({"mode": what, "stop_sending": {"when": (["at once", "after some reads", "read parked, reader goes on", "read parked, handle dropped (observed only)"])[stop_variant as usize], "code": code}, "send_side": {"how": (["finished", "reset before any write", "reset after a complete write", "reset with a write in flight"])[reset_variant as usize], "code": reset_code}, "whole_bidi_stream": whole, "peer_saw": r.outcome, "virtual_seconds": e3::now().as_secs_f64()}));
+    }
+    out
+}
+
 fn finish_full_stack(ctx: &RunCtx, stop: Stop, rec: &Rc<RefCell<Rec>>, req_body: &[u8], resp_body: &[u8], lossy: bool) -> RunOut {
     if let Some(v) = panic_violation() {
         return v;
@@ -757,7 +1375,7 @@ impl Check for C17 {
     fn meta(&self) -> Meta {
         Meta {
             level: "exploration",
-            rule: "per run two real Quinn endpoints complete a real TLS 1.3 handshake on the simulated network; transport parameters drawn (stream receive window 1 B .. 1 MiB, connection window, send window); network faults drawn per run (drop 0-20 %, duplicate 0-10 %, reorder 0-10 %, delay up to 20 ms) or none; scenarios: (a) 1-4 DATA frames with payloads 0 .. 256 KiB at window multiples +-1 written through h3_quinn send_data/poll_ready/poll_finish while the raw peer writes 0..100 KB back, identifier queries before, while a read is pending, with a write in flight, after the first chunk and at the end, a second send_data while the first is unfinished, in one run in three followed by a blob written through the unframed path (SendStreamUnframed::poll_send with a fresh view of the unsent rest at every poll, as h3's AsyncWrite does); (b) peer stop / reset / close with arbitrary codes at a drawn byte offset, or a partition until the idle timeout, with a second read of the stream after the failed one; (c) a full h3 request/response over two adapters; (d) HTTP Datagrams through the Quinn datagram adapter, payloads contiguous or in two chunks; every run non-trivial; distinct = distinct schedule signatures (task/packet event sequences)",
+            rule: "per run two real Quinn endpoints complete a real TLS 1.3 handshake on the simulated network; transport parameters drawn (stream receive window 1 B .. 1 MiB, connection window, send window); network faults drawn per run (drop 0-20 %, duplicate 0-10 %, reorder 0-10 %, delay up to 20 ms) or none; scenarios: (a) 1-4 DATA frames with payloads 0 .. 256 KiB at window multiples +-1 written through h3_quinn send_data/poll_ready/poll_finish while the raw peer writes 0..100 KB back, identifier queries before, while a read is pending, with a write in flight, after the first chunk and at the end, a second send_data while the first is unfinished, in one run in three followed by a blob written through the unframed path (SendStreamUnframed::poll_send with a fresh view of the unsent rest at every poll, as h3's AsyncWrite does); (b) peer stop / reset / close with arbitrary codes at a drawn byte offset, or a partition until the idle timeout, with a second read of the stream after the failed one; (c) a full h3 request/response over two adapters; (d) HTTP Datagrams through the Quinn datagram adapter, payloads contiguous or in two chunks; (e) the raw peer opens 0-3 unidirectional and 0-2 bidirectional streams in a drawn order, each carrying Quinn's own identifier and a pattern, the adapter accepts them through poll_accept_recv / poll_accept_bidi polled from one task, reads them, answers the bidirectional ones, and opens 0-3 unidirectional streams through the OpenStreams handle from opener() while the peer grants 100, 2 or 1 at a time; identifiers reported when fresh and at the end must be Quinn's, bytes exact, every stream surfaced once; then nothing, a peer close with an arbitrary code, or a partition until the idle timeout: poll_accept_recv, poll_accept_bidi, a repeated poll_accept_recv, poll_open_send on the handle and poll_open_bidi must all report that condition's class and code; (f) stop_sending(code) and reset(code) issued through the adapter (whole stream or halves): the stop at once, after some reads, or while a read is parked inside the adapter with the reader going on until that read completes, the reset before any write, after a complete write or with a write in flight; the raw peer must see Stopped(code) and Reset(code) (a parked stop followed by dropping the handle is counted, not judged); every run non-trivial; distinct = distinct schedule signatures (task/packet event sequences)",
             real: &["quinn 0.11, quinn-proto, rustls (ring), h3-quinn (lib.rs, datagram.rs), h3 stream::WriteBuf and frame encoding, in scenario (c) all of h3"],
             stub: &["UDP sockets, timers, task spawner and clock (engine E3: virtual time, in-memory network, choice-driven)", "the raw Quinn peer's behaviour", "a fixed Ed25519 certificate checked into /verif/sim/certs"],
             assumptions: &["ring's system RNG influences packet contents only, never sizes or timing (runs are re-executed and compared by trace hash; a divergence is a harness error)", "DATA frame headers are compared against the minimal reference encoding"],
